@@ -113,6 +113,20 @@ pub fn gen(tier: &str, rng: &mut Rng, out: &mut Vec<String>) {
             _ => out.push(format!("c07.tleval {} {} {} {} {} {}", hexd(&s), flags, show_opt(start), show_opt(brk), st, alt)),
         }
     }
+    // every opcode behind every pair of boundary operands (empty, -0, 1, -1, 2, 127, 128, i32::MAX as 4 bytes, a 5-byte item):
+    // the integer edges of the index / count / size opcodes (PICK, ROLL, SPLIT, NUM2BIN, shifts, multisig counts)
+    {
+        let bp = crate::scriptgen::boundary_pushes();
+        for op in 79u8..=185 {
+            for a in bp.iter() { for b in bp.iter() {
+                // OP_NUM2BIN with a size of 2^31-1 would build a 2 GiB item (the harness memory cap drops such cases anyway)
+                if op == 0x80 && b.len() == 4 { continue; }
+                let mut sc = vec![0x51, 0x52];
+                crate::scriptgen::push_with(&mut sc, a, 0); crate::scriptgen::push_with(&mut sc, b, 0); sc.push(op);
+                out.push(eval_req("c07", &sc, if op % 2 == 0 { 0 } else { 1 }, None, None, "~", "~", "t:t:t"));
+            } }
+        }
+    }
     // all start/break offsets in [0, len+1] for short scripts
     let m = if thorough { 400 } else { 60 };
     for _ in 0..m {
